@@ -348,6 +348,18 @@ def _load_order(repo_src: Path, rname: str) -> list[str]:
             return _load_order(repo_src, SUPER[rname])
         raise ExtractError(f"{cls}.to_soundevent not found")
     order: list[str] = []
+    import re as _re
+
+    objarg = fn.args.args[1].arg
+    for n in ast.walk(fn):
+        its = [n.iter] if isinstance(n, ast.For) else ([g.iter for g in n.generators] if isinstance(n, (ast.ListComp, ast.GeneratorExp)) else [])
+        inner = n.body if isinstance(n, ast.For) else ([n.elt] if its else [])
+        if not any((_adapter_call(m) or ("", ""))[1] == "to_soundevent" for b in inner for m in ast.walk(b)):
+            continue  # only loops that re-register objects matter here
+        for it in its:
+            txt = ast.unparse(it)
+            if _adapter_call(it) is None and not _re.fullmatch(rf"{objarg}\.\w+( or \[\])?|\w+", txt):
+                raise ExtractError(f"{cls}.to_soundevent iterates over `{txt}`: top-level lists must be re-registered in document order")
     for s in _flatten(_stmts(fn)):
         val = s.value if isinstance(s, (ast.Assign, ast.Expr, ast.Return, ast.AnnAssign)) else None
         if val is None:
@@ -446,4 +458,109 @@ def _normal(steps):
             out.append(("Conv", a))
             cur = []
     out.append(tuple(sorted(cur)))
+    return out
+
+
+# ------------------------------------------------------------------------------------------------ dispatch and audio_dir
+def extract_dispatch(repo_src: Path) -> dict:
+    """ADAPTERS table of aoef/__init__.py in source order, and the shape of the two dispatch loops"""
+    tree = _src(repo_src, "__init__")
+    order = None
+    for n in tree.body:
+        tgt = None
+        if isinstance(n, ast.Assign) and len(n.targets) == 1 and isinstance(n.targets[0], ast.Name):
+            tgt, val = n.targets[0].id, n.value
+        elif isinstance(n, ast.AnnAssign) and isinstance(n.target, ast.Name):
+            tgt, val = n.target.id, n.value
+        if tgt == "ADAPTERS":
+            if not isinstance(val, (ast.List, ast.Tuple)):
+                raise ExtractError("ADAPTERS is not a literal list")
+            order = []
+            for e in val.elts:
+                if not (isinstance(e, ast.Tuple) and len(e.elts) == 3 and isinstance(e.elts[0], ast.Constant)
+                        and isinstance(e.elts[1], ast.Attribute) and isinstance(e.elts[2], ast.Name)):
+                    raise ExtractError("ADAPTERS entry not of the form (name, data.X, XAdapter)")
+                order.append((e.elts[0].value, e.elts[1].attr, e.elts[2].id))
+    if order is None:
+        raise ExtractError("ADAPTERS not found")
+
+    def loop(fname, want):
+        fn = next((n for n in tree.body if isinstance(n, ast.FunctionDef) and n.name == fname), None)
+        if fn is None:
+            raise ExtractError(f"{fname} not found")
+        fors = [s for s in _stmts(fn) if isinstance(s, ast.For)]
+        if len(fors) != 1 or not (isinstance(fors[0].iter, ast.Name) and fors[0].iter.id == "ADAPTERS"):
+            raise ExtractError(f"{fname}: expected one loop over ADAPTERS")
+        body = fors[0].body
+        if not (len(body) == 1 and isinstance(body[0], ast.If)):
+            raise ExtractError(f"{fname}: loop body is not a single if")
+        test = ast.unparse(body[0].test)
+        if test != want:
+            raise ExtractError(f"{fname}: dispatch test is `{test}`, expected `{want}`")
+        # inside: adapter = adapter_cls(audio_dir=audio_dir)
+        calls = [n for n in ast.walk(body[0]) if isinstance(n, ast.Call) and isinstance(n.func, ast.Name) and n.func.id == "adapter_cls"]
+        if len(calls) != 1 or [(k.arg, ast.unparse(k.value)) for k in calls[0].keywords] != [("audio_dir", "audio_dir")] or calls[0].args:
+            raise ExtractError(f"{fname}: the adapter is not built as adapter_cls(audio_dir=audio_dir)")
+        return True
+
+    loop("to_aeof", "isinstance(obj, data_cls)")
+    loop("to_soundevent", "aoef_object.data.collection_type == adapter_type")
+    return {"order": order}
+
+
+def audio_dir_problems(repo_src: Path) -> list[str]:
+    """C18: the directory given to save/load must reach every RecordingAdapter unchanged, and the adapter must use it by
+    relative_to on write / `/` on read.  Static, fail-closed reading of the constructors."""
+    out = []
+    try:
+        extract_dispatch(repo_src)
+    except ExtractError as e:
+        out.append(str(e))
+    for mod, cls in [("recording_set", "RecordingSetAdapter"), ("annotation_set", "AnnotationSetAdapter"),
+                     ("prediction_set", "PredictionSetAdapter"), ("evaluation", "EvaluationAdapter")]:
+        init = _method(_src(repo_src, mod), cls, "__init__")
+        if init is None:
+            out.append(f"{cls}.__init__ not found")
+            continue
+        calls = [n for n in ast.walk(init) if isinstance(n, ast.Call) and isinstance(n.func, ast.Name) and n.func.id == "RecordingAdapter"]
+        if len(calls) != 1:
+            out.append(f"{cls}.__init__: expected one RecordingAdapter(...) construction")
+            continue
+        c = calls[0]
+        passed = [ast.unparse(a) for a in c.args[3:4]] + [ast.unparse(k.value) for k in c.keywords if k.arg == "audio_dir"]
+        if passed not in (["audio_dir"], ["self.audio_dir"]):
+            out.append(f"{cls}.__init__: RecordingAdapter receives audio_dir={passed}")
+        if passed == ["self.audio_dir"]:
+            asg = [s for s in ast.walk(init) if isinstance(s, ast.Assign) and ast.unparse(s.targets[0]) == "self.audio_dir"]
+            if len(asg) != 1 or ast.unparse(asg[0].value) != "audio_dir":
+                out.append(f"{cls}.__init__: self.audio_dir is not the argument as given")
+        # nobody reassigns the parameter
+        for s in ast.walk(init):
+            if isinstance(s, (ast.Assign, ast.AugAssign)):
+                tg = s.targets if isinstance(s, ast.Assign) else [s.target]
+                if any(isinstance(t, ast.Name) and t.id == "audio_dir" for t in tg):
+                    out.append(f"{cls}.__init__: audio_dir is reassigned")
+    for mod, cls in [("dataset", "DatasetAdapter"), ("annotation_project", "AnnotationProjectAdapter"),
+                     ("evaluation_set", "EvaluationSetAdapter"), ("model_run", "ModelRunAdapter")]:
+        init = _method(_src(repo_src, mod), cls, "__init__")
+        if init is not None:
+            sup = [n for n in ast.walk(init) if isinstance(n, ast.Call) and ast.unparse(n.func) == "super().__init__"]
+            if len(sup) != 1 or not any(k.arg is None for k in sup[0].keywords):
+                out.append(f"{cls}.__init__ does not forward **kwargs (audio_dir) to its base")
+    # the recording adapter itself
+    rec = _src(repo_src, "recording")
+    w = ast.unparse(_method(rec, "RecordingAdapter", "assemble_aoef"))
+    r = ast.unparse(_method(rec, "RecordingAdapter", "assemble_soundevent"))
+    init = ast.unparse(_method(rec, "RecordingAdapter", "__init__"))
+    if "self.audio_dir = audio_dir" not in init:
+        out.append("RecordingAdapter.__init__ does not keep audio_dir as given")
+    if "if self.audio_dir is not None:\n        path = Path(obj.path).relative_to(self.audio_dir)" not in w:
+        out.append("RecordingAdapter.assemble_aoef: path is not Path(obj.path).relative_to(self.audio_dir) under `is not None`")
+    if "if self.audio_dir is not None:\n        path = self.audio_dir / obj.path" not in r:
+        out.append("RecordingAdapter.assemble_soundevent: path is not self.audio_dir / obj.path under `is not None`")
+    # save / load wrappers pass the directory on
+    for mod, fn_name, want in [("__init__", "save", "to_aeof(obj, audio_dir=audio_dir)"), ("__init__", "load", "to_soundevent(aoef_object, audio_dir=audio_dir)")]:
+        fn = next((n for n in _src(repo_src, mod).body if isinstance(n, ast.FunctionDef) and n.name == fn_name), None)
+        if fn is None or want not in ast.unparse(fn):
+            out.append(f"aoef.{fn_name}: `{want}` not found")
     return out
